@@ -34,9 +34,10 @@ var c16Alpha = []string{"a", "B", " ", "\n", "é", "𝄞", "<", "&", "%", "+", "
 var c16StrArgs = []string{"", "...", "é", "a", " ", ", ", "B", "&", "𝄞x", "a ", "%", "--"}
 
 type c16 struct {
-	c *core.Ctx
-	e *liquid.Engine
-	t map[string]*liquid.Template
+	c     *core.Ctx
+	e     *liquid.Engine
+	t     map[string]*liquid.Template
+	calls int
 }
 
 func (x *c16) tpl(src string) *liquid.Template {
@@ -72,7 +73,24 @@ func (x *c16) apply(filter string, s any, args ...any) core.Res {
 		return core.Res{Shape: "template did not parse"}
 	}
 	x.c.Eval(1)
+	// the filters are reached through every way of rendering a parsed template in turn
+	switch x.calls++; x.calls % 3 {
+	case 1:
+		return core.RenderString(t, b)
+	case 2:
+		return core.FRender(t, nil, b)
+	}
 	return core.Render(t, b)
+}
+
+// rawBytes: url_decode yields whatever bytes its input spells, valid UTF-8 or not, and nothing on the way out re-encodes them.
+func (x *c16) rawBytes() {
+	for _, cs := range [][2]string{{"%ff", "\xff"}, {"%c3", "\xc3"}, {"%f0%9f%98", "\xf0\x9f\x98"}, {"a%80b", "a\x80b"}, {"%c3%a9%ff", "é\xff"}, {"%ED%A0%80", "\xed\xa0\x80"}, {"%fe%ff", "\xfe\xff"}} {
+		for k := 0; k < 3; k++ {
+			x.expect("url_decode", "its output is whatever bytes its input spells", cs[0], cs[1])
+		}
+		x.c.Distinct("rawbytes", cs[0])
+	}
 }
 
 func (x *c16) bad(filter, law string, s any, args []any, res core.Res, want string) {
@@ -459,6 +477,7 @@ func runC16(c *core.Ctx) {
 		x.namedStringReceivers()
 		x.literalBackslashes()
 		x.numberReceivers()
+		x.rawBytes()
 	}
 	total := gen.CountStrings(len(c16Alpha), c.Pick(4, 5))
 	reps := c.Pick(2, 4)
